@@ -5,3 +5,5 @@ register_simp_attr pres
 register_simp_attr frame
 /-- Exception lemmas `Safe E (f args)`. -/
 register_simp_attr safe
+/-- non-interference lemmas -/
+register_simp_attr ni
